@@ -2288,9 +2288,88 @@ fn finish_dag(raw: Vec<RawNode>, nu: usize, nr: usize, order: u8, salt: u32) -> 
     Dag { nodes, upper: nu as u32, roots: nr as u32, order }
 }
 
+/// structured family: 1..3 groups of 2..3 space roots (32-bit links from the root or an upper node); the roots of a
+/// group share a small node (so they are one space) and own 1..3 big leaves each, so that a group overflows and half
+/// of its roots must be moved to a new space (several groups: several spaces are isolated in one round)
+fn spaces_family() -> BoxedStrategy<Dag> {
+    let root_spec = (proptest::collection::vec(prop_oneof![3 => 30_000u32..33_000, 2 => 20_000u32..30_000, 1 => 8u32..64], 1..4), any::<bool>());
+    // (roots, size of the shared node, big leaves owned by the shared node, shared node also linked from the root)
+    let group = (proptest::collection::vec(root_spec, 2..4), 8u32..40, proptest::collection::vec(prop_oneof![2 => 28_000u32..33_000, 1 => 8u32..64], 0..3), any::<bool>());
+    (proptest::collection::vec(group, 1..4), 0usize..3, 0u8..2, any::<u32>(), any::<u16>())
+        .prop_map(|(groups, n_upper, order, salt, via)| {
+            let mut nodes: Vec<DNode> = vec![];
+            let mut stamp = salt.wrapping_mul(64);
+            let mut mk = |size: u32, w: u8, nodes: &mut Vec<DNode>| {
+                stamp = stamp.wrapping_add(1);
+                nodes.push(DNode { size: size.max(8), lead: 4, stamp, w, links: vec![] });
+                nodes.len() - 1
+            };
+            mk(12, 2, &mut nodes);
+            for _ in 0..n_upper {
+                let u = mk(10, 2, &mut nodes);
+                nodes[0].links.push(u as u32);
+            }
+            let upper = nodes.len();
+            // space roots
+            let mut root_idx: Vec<Vec<usize>> = vec![];
+            let mut k = 0usize;
+            for (roots, _, _, _) in &groups {
+                let mut v = vec![];
+                for _ in roots {
+                    let r = mk(16, 4, &mut nodes);
+                    // linked from the root or from one of the upper nodes
+                    let from = if upper > 1 && (via >> (k % 16)) & 1 == 1 { 1 + k % (upper - 1) } else { 0 };
+                    nodes[from].links.push(r as u32);
+                    v.push(r);
+                    k += 1;
+                }
+                root_idx.push(v);
+            }
+            let nroots = nodes.len() - upper;
+            for (gi, (roots, shared_size, shared_leaves, from_upper)) in groups.iter().enumerate() {
+                let shared = mk(*shared_size, 2, &mut nodes);
+                for size in shared_leaves {
+                    // an overflow below the shared node: which root of the space it is attributed to must not depend
+                    // on the order of the shared node's parent list
+                    let leaf = mk(*size, 2, &mut nodes);
+                    nodes[shared].links.push(leaf as u32);
+                }
+                for r in &root_idx[gi] {
+                    nodes[*r].links.push(shared as u32);
+                }
+                if *from_upper {
+                    // also reachable through 16-bit links: must be duplicated into the space
+                    nodes[0].links.push(shared as u32);
+                }
+                for (ri, (leaves, twin)) in roots.iter().enumerate() {
+                    for (li, size) in leaves.iter().enumerate() {
+                        let leaf = mk(*size, 2, &mut nodes);
+                        if *twin && li > 0 {
+                            // same content as the previous leaf: one object on the public route
+                            let prev = nodes[leaf - 1].clone();
+                            nodes[leaf].size = prev.size;
+                            nodes[leaf].stamp = prev.stamp;
+                        }
+                        nodes[root_idx[gi][ri]].links.push(leaf as u32);
+                    }
+                }
+            }
+            for n in nodes.iter_mut() {
+                n.lead = n.lead.min(n.size);
+            }
+            Dag { nodes, upper: upper as u32, roots: nroots as u32, order }
+        })
+        .boxed()
+}
+
 fn dag_strategy(small: bool) -> BoxedStrategy<Dag> {
     let n = if small { 2usize..8 } else { 2usize..26 };
-    (proptest::collection::vec(raw_node(small), n), 1usize..8, prop_oneof![2 => Just(0usize), 3 => 1usize..6], 0u8..2, any::<u32>()).prop_map(|(raw, nu, nr, order, salt)| finish_dag(raw, nu, nr, order, salt)).boxed()
+    let random = (proptest::collection::vec(raw_node(small), n), 1usize..8, prop_oneof![2 => Just(0usize), 3 => 1usize..6], 0u8..2, any::<u32>()).prop_map(|(raw, nu, nr, order, salt)| finish_dag(raw, nu, nr, order, salt));
+    if small {
+        random.boxed()
+    } else {
+        prop_oneof![3 => random, 1 => spaces_family()].boxed()
+    }
 }
 
 fn owned_recipe() -> BoxedStrategy<Recipe> {
@@ -2359,11 +2438,11 @@ struct GapPlan {
 
 fn gap_value() -> BoxedStrategy<u64> {
     prop_oneof![
-        4 => 0u64..8,
-        3 => 1u64..1000,
-        2 => 0u64..(1u64 << 33),
-        2 => (0u64..16).prop_map(|k| (1u64 << 32) - 8 + k),
-        1 => (0u64..16).prop_map(|k| (1u64 << 31) - 8 + k),
+        8 => 0u64..8,
+        6 => 1u64..1000,
+        4 => 0u64..(1u64 << 33),
+        4 => (0u64..16).prop_map(|k| (1u64 << 32) - 8 + k),
+        2 => (0u64..16).prop_map(|k| (1u64 << 31) - 8 + k),
         1 => (1u64 << 33)..(1u64 << 40),
     ]
     .boxed()
@@ -2428,11 +2507,43 @@ fn fail(pred: &str, r: &Recipe, msg: String) -> Fail {
     Fail::new(format!("c07|{pred}|{}", kind_name(r)), msg)
 }
 
+thread_local! {
+    /// work units spent on this shard thread since its first failure (0 = no failure yet)
+    static AFTER_FAIL: std::cell::Cell<u64> = const { std::cell::Cell::new(0) };
+    static LAST_COST: std::cell::Cell<u64> = const { std::cell::Cell::new(1) };
+}
+const SHRINK_UNITS: u64 = 160;
+const REPLAY_REPEATS: u32 = 24;
+
+/// A shard stops generating at its first violation, so every later call on that thread is a shrink step. Shrinking is
+/// given a fixed amount of work (units = evaluations weighted by output size, nothing timed); beyond it the steps
+/// answer "passes", which ends the search at the smallest failing case found so far.
+fn test_sched_budgeted(c: &SchedCase, stats: &Stats, replay: bool) -> CaseResult {
+    if replay {
+        // hash-order leaks reproduce with a probability per recomputation (every map instance has its own seed):
+        // a stored case is evaluated repeatedly
+        for _ in 0..REPLAY_REPEATS {
+            test_sched(c, stats)?;
+        }
+        return Ok(());
+    }
+    let spent = AFTER_FAIL.with(|a| a.get());
+    if spent > SHRINK_UNITS {
+        return Ok(());
+    }
+    let r = test_sched(c, stats);
+    if spent > 0 || r.is_err() {
+        AFTER_FAIL.with(|a| a.set(spent + LAST_COST.with(|c| c.get())));
+    }
+    r
+}
+
 fn test_sched(c: &SchedCase, stats: &Stats) -> CaseResult {
     let kind = kind_name(&c.value);
     push_id_gaps(vec![]);
     // (a) reference
     let reference = compile(&c.value);
+    LAST_COST.with(|k| k.set(1 + reference.digest().1 / 20_000));
     // repeat, counting the object ids the compilation allocates (a queue of zero gaps changes nothing)
     push_id_gaps(vec![0; ID_PROBE]);
     let again = compile(&c.value);
@@ -2490,9 +2601,6 @@ fn test_sched(c: &SchedCase, stats: &Stats) -> CaseResult {
         stats.class(t);
         if t.starts_with("outcome:") {
             stats.class(&format!("{t}:{kind}"));
-            if let Outcome::Error(e) = &reference {
-                stats.class(&format!("error-text:{kind}:{}", e.chars().take(40).collect::<String>()));
-            }
         }
     }
     if !c.prior.is_empty() {
@@ -2735,6 +2843,14 @@ fn test_procs(c: &ProcCase, stats: &Stats, ctx: &Ctx) -> CaseResult {
 
 // =================================================================================================
 
+/// case `i` of an enumeration stage: drawn from the proptest strategy with the engine's seed for (stage, i)
+fn draw<S: Strategy>(ctx: &Ctx, stage: &str, i: u64, strat: &S) -> Option<S::Value> {
+    use proptest::strategy::ValueTree;
+    use proptest::test_runner::{Config, RngAlgorithm, TestRng, TestRunner};
+    let mut runner = TestRunner::new_with_rng(Config { failure_persistence: None, ..Config::default() }, TestRng::from_seed(RngAlgorithm::ChaCha, &ctx.stage_seed(stage, i)));
+    strat.new_tree(&mut runner).ok().map(|t| t.current())
+}
+
 fn main() {
     if std::env::args().any(|a| a == "--digest-child") {
         child_main();
@@ -2744,7 +2860,8 @@ fn main() {
         "recipes (proptest) -> values rebuilt inside the test and compiled: tape-driven GSUB/GPOS/GDEF/name/STAT/BASE/COLR/ItemVariationStore tables (also 'big' GSUB/GPOS with 3..17 lookups), \
          VariationStoreBuilder inputs (1..2500 rows over 1..14 regions, repeated row patterns), GlyphVariations -> Gvar (tuple palette shared between glyphs), GPOS lookup builders \
          (PairPos glyph+class rules, MarkToBase, SinglePos, Cursive; small / ~16K / >64K lookups; optional variation deltas), mock graphs through a harness FontWrite type and through pack_mock_graph \
-         (upper nodes / 32-bit space roots / lower nodes shared between spaces; sizes 8..66000; one incoming width per node and no nested 32-bit targets, i.e. outside the two listed C05 findings), \
+         (upper nodes / 32-bit space roots / lower nodes shared between spaces; sizes 8..66000; a 'spaces' family with 1..3 groups of 2..3 space roots sharing a node and owning ~32K leaves, so that several spaces \
+         overflow and are split in one round; one incoming width per node and no nested 32-bit targets, i.e. outside the two listed C05 findings), \
          owned tables of corpus fonts (to_owned_table), FontBuilder inputs, klippa::subset_font with generated plans. Each value: reference, immediate repeat, repeat after generated unrelated compilations, \
          repeats under 1..3 generated id-gap plans (sparse steps over all object ids of the compilation, gaps 0..2^40 incl. 2^31/2^32 +-8), on N real threads, in fresh processes. \
          Non-trivial (approximated through output features, counted only when the compilation produced bytes): IVS builder merged row shapes or deduplicated rows; gvar has shared tuples; mock graph is > 64K \
@@ -2757,11 +2874,24 @@ fn main() {
     ctx.assume("process digests are FNV-1a 64 + length + outcome kind (collisions ignored)");
 
     let quick = ctx.quick();
-    ctx.prop_stage("schedule", Isolation::Threads, ctx.n(2_400, 40_000), sched_strategy, test_sched);
+    let replay = ctx.is_replay();
+    ctx.prop_stage("schedule", Isolation::Threads, ctx.n(30_000, 200_000), sched_strategy, |c: &SchedCase, s: &Stats| test_sched_budgeted(c, s, replay));
     let max_threads = if quick { 8 } else { 24 };
-    ctx.prop_stage("threads", Isolation::Threads, ctx.n(64, 700), move || thread_strategy(max_threads), test_threads);
+    // threads / processes: enumeration stages (case i is drawn from the strategy with the stage seed of index i): a
+    // failing case is stored as it is; shrinking would re-run hundreds of thread rounds / process fan-outs
+    ctx.index_stage("threads", Isolation::Threads, ctx.n(600, 4_000), |i| draw(&ctx, "threads", i, &thread_strategy(max_threads)).unwrap_or(ThreadCase { pool: vec![], threads: vec![], rounds: 0 }), |c: &ThreadCase, s: &Stats| {
+        for _ in 0..if replay { REPLAY_REPEATS / 4 } else { 1 } {
+            test_threads(c, s)?;
+        }
+        Ok(())
+    });
     let nchildren = if quick { 8 } else { 12 };
-    ctx.prop_stage("processes", Isolation::Threads, ctx.n(16, 96), move || proc_strategy(nchildren), |c: &ProcCase, s: &Stats| test_procs(c, s, &ctx));
+    ctx.index_stage("processes", Isolation::Threads, ctx.n(96, 400), |i| draw(&ctx, "processes", i, &proc_strategy(nchildren)).unwrap_or(ProcCase { sample: vec![], children: vec![] }), |c: &ProcCase, s: &Stats| {
+        for _ in 0..if replay { REPLAY_REPEATS / 8 } else { 1 } {
+            test_procs(c, s, &ctx)?;
+        }
+        Ok(())
+    });
     ctx.note("gap_id_space_spent_log2", json!((GAP_SPENT.load(Ordering::Relaxed) as f64).max(1.0).log2()));
     ctx.finish();
 }
